@@ -66,7 +66,7 @@ func (m *Model) Enabled(op Op) bool {
 	if op.Kept && (!m.KeptOK[op.B][op.T] || op.K > KApplyO || op.Retained) {
 		return false
 	}
-	if op.Outer && (op.Kept || op.Retained || (op.T != TM && op.T != TLm) || !m.outerSeen[op.B]) {
+	if op.Outer && (op.Kept || op.Retained || (op.T != TM && op.T != TLm && op.T != TLm2) || !m.outerSeen[op.B]) {
 		return false // the struct-level handle exists once Struct(..) has been asked for
 	}
 	if !op.Kept && m.zombie[op.B][op.T] {
@@ -127,7 +127,7 @@ func (m *Model) Do(op Op) {
 		return
 	}
 	t := m.Resolve(op)
-	if op.T == TM || op.T == TLm {
+	if op.T == TM || op.T == TLm || op.T == TLm2 {
 		m.outerSeen[op.B] = true
 	}
 	if !op.Retained && !op.Kept {
